@@ -378,7 +378,7 @@ outer:
 		}
 
 		utfb := make([]byte, len(b)*4) // worst case
-		for l := 1; l < len(b); l++ {
+		for l := 1; l <= len(b); l++ {
 			s.decoder.Reset()
 			nout, nin, _ := s.decoder.Transform(utfb, b[:l], true)
 
